@@ -410,3 +410,410 @@ Proof.
   - rewrite He in Ha. exact Ha.
   - apply in_members. rewrite in_sort_duties. repeat split; assumption.
 Qed.
+
+(* =========================================================================================== *)
+(* Part 4.  The merged lengths under a self-consistent answer; the submission.                 *)
+
+Lemma fold_last_by : forall {A} (p : A -> bool) l acc,
+  fold_left (fun acc x => if p x then Some x else acc) l acc =
+  match last_opt (filter p l) with Some y => Some y | None => acc end.
+Proof.
+  intros A p l. induction l as [|x l IH]; intro acc; cbn [fold_left filter]; [reflexivity|].
+  rewrite IH. destruct (p x); [|reflexivity].
+  rewrite last_opt_cons. destruct (last_opt (filter p l)); reflexivity.
+Qed.
+
+Lemma last_by_filter : forall {A} (p : A -> bool) l, last_by p l = last_opt (filter p l).
+Proof. intros. unfold last_by. rewrite fold_last_by. destruct (last_opt _); reflexivity. Qed.
+
+Lemma last_by_some : forall {A} (p : A -> bool) l x, last_by p l = Some x -> In x l /\ p x = true.
+Proof.
+  intros A p l x H. rewrite last_by_filter in H. apply last_opt_in in H. apply filter_In in H. exact H.
+Qed.
+
+Lemma last_by_none : forall {A} (p : A -> bool) l x, last_by p l = None -> In x l -> p x = false.
+Proof.
+  intros A p l x H Hi. rewrite last_by_filter in H. apply last_opt_none in H.
+  destruct (p x) eqn:E; [|reflexivity].
+  assert (Hf : In x (filter p l)) by (apply filter_In; auto). rewrite H in Hf. destruct Hf.
+Qed.
+
+Lemma same_slot_iff : forall s d, same_slot s d = true <-> d_slot d = s.
+Proof. intros. unfold same_slot. apply N.eqb_eq. Qed.
+
+Lemma consistent_cas : forall ds d, consistent_duties ds -> In d ds ->
+  cas_of (sort_duties ds) (d_slot d) = d_cas d.
+Proof.
+  intros ds d C Hd. unfold cas_of.
+  destruct (last_by (same_slot (d_slot d)) (sort_duties ds)) as [x|] eqn:E.
+  - apply last_by_some in E as [Hx Hs]. rewrite in_sort_duties in Hx. apply same_slot_iff in Hs.
+    apply (C x d Hx Hd Hs).
+  - assert (H : same_slot (d_slot d) d = false).
+    { eapply last_by_none; [exact E|]. apply in_sort_duties. exact Hd. }
+    assert (same_slot (d_slot d) d = true) by (apply same_slot_iff; reflexivity). congruence.
+Qed.
+
+Lemma consistent_len : forall ds d, consistent_duties ds -> In d ds ->
+  len_of (sort_duties ds) (d_slot d) (d_comm d) = d_len d.
+Proof.
+  intros ds d C Hd. unfold len_of.
+  destruct (last_by (same_key (d_slot d) (d_comm d)) (sort_duties ds)) as [x|] eqn:E.
+  - apply last_by_some in E as [Hx Hs]. rewrite in_sort_duties in Hx. apply same_key_iff in Hs.
+    unfold dkey in Hs. injection Hs as H1 H2. apply (C x d Hx Hd H1). exact H2.
+  - assert (H : same_key (d_slot d) (d_comm d) d = false).
+    { eapply last_by_none; [exact E|]. apply in_sort_duties. exact Hd. }
+    assert (same_key (d_slot d) (d_comm d) d = true) by (apply same_key_iff; reflexivity). congruence.
+Qed.
+
+(* under a self-consistent answer with proper digests, the flag vouch computes for a validator is
+   the specification's rule on that validator's own duty *)
+Lemma agg_of_selected : forall t ds d, consistent_duties ds -> digests_ok ds -> In d ds ->
+  agg_of t (sort_duties ds) d = selected t d.
+Proof.
+  intros t ds d C G Hd. unfold agg_of, selected. rewrite consistent_len by assumption.
+  destruct (G d Hd) as [Hb Hl]. apply is_aggregator_spec_lemma; assumption.
+Qed.
+
+Lemma to_submit_keys : forall cur info,
+  map pkey (to_submit cur info) = filter (fun k => cur <? fst k) (map skey info).
+Proof.
+  intros cur info. unfold to_submit. induction info as [|e info IH]; cbn [filter map]; [reflexivity|].
+  change (fst (skey e)) with (s_slot e). destruct (cur <? s_slot e); cbn [map]; rewrite IH; reflexivity.
+Qed.
+
+Lemma in_to_submit : forall cur info p,
+  In p (to_submit cur info) <-> exists e, In e info /\ cur < s_slot e /\ p = to_subscription e.
+Proof.
+  intros cur info p. unfold to_submit. rewrite in_map_iff. split.
+  - intros (e & <- & He). apply filter_In in He as [H1 H2]. apply N.ltb_lt in H2. exists e. auto.
+  - intros (e & H1 & H2 & ->). exists e. split; [reflexivity|]. apply filter_In. split; [exact H1|].
+    apply N.ltb_lt. exact H2.
+Qed.
+
+(* The submitted payload, for every duty list and every current slot. *)
+Lemma submitted_nodup : forall t ok ds cur,
+  NoDup (map pkey (to_submit cur (subscription_info t ok ds))).
+Proof. intros. rewrite to_submit_keys. apply NoDup_filter. apply info_nodup. Qed.
+
+Lemma submitted_pairs : forall t ok ds cur s c,
+  In (s, c) (map pkey (to_submit cur (subscription_info t ok ds))) <->
+  cur < s /\ exists d, duty_for ok ds s c d.
+Proof.
+  intros t ok ds cur s c. rewrite to_submit_keys, filter_In, info_keys. cbn [fst].
+  rewrite N.ltb_lt. tauto.
+Qed.
+
+Lemma submitted_entry : forall t ok ds cur p,
+  In p (to_submit cur (subscription_info t ok ds)) ->
+  cur < p_slot p /\
+  exists d, duty_for ok ds (p_slot p) (p_comm p) d /\
+            p_val p = d_val d /\
+            p_cas p = cas_of (sort_duties ds) (p_slot p) /\
+            p_agg p = agg_of t (sort_duties ds) d.
+Proof.
+  intros t ok ds cur p Hp. apply in_to_submit in Hp as (e & He & Hc & ->).
+  apply info_entry_in in He as (d & Hd & Hm & _).
+  cbn [to_subscription p_slot p_comm p_val p_cas p_agg]. split; [exact Hc|].
+  exists d. split; [exact Hd|]. rewrite Hm. cbn [mk_sub s_val s_cas s_agg s_slot]. auto.
+Qed.
+
+Lemma submitted_entry_consistent : forall t ok ds cur p,
+  consistent_duties ds -> digests_ok ds ->
+  In p (to_submit cur (subscription_info t ok ds)) ->
+  exists d, duty_for ok ds (p_slot p) (p_comm p) d /\ p_val p = d_val d /\
+            p_cas p = d_cas d /\ p_agg p = selected t d.
+Proof.
+  intros t ok ds cur p C G Hp. apply submitted_entry in Hp as (_ & d & Hd & Hv & Hc & Ha).
+  exists d. split; [exact Hd|]. split; [exact Hv|].
+  destruct Hd as (H1 & H2 & H3 & H4). split.
+  - rewrite Hc, <- H2. apply consistent_cas; assumption.
+  - rewrite Ha. apply agg_of_selected; assumption.
+Qed.
+
+(* Part 4b.  A committee with a selected validator records (and submits) a selected one. *)
+Lemma recorded_aggregator : forall t ok ds s c d,
+  duty_for ok ds s c d -> agg_of t (sort_duties ds) d = true ->
+  exists e d', find_sub s c (subscription_info t ok ds) = Some e /\ s_agg e = true /\
+               duty_for ok ds s c d' /\ e = mk_sub t (sort_duties ds) d' /\
+               agg_of t (sort_duties ds) d' = true.
+Proof.
+  intros t ok ds s c d Hd Ha.
+  destruct (find_sub s c (subscription_info t ok ds)) as [e|] eqn:F.
+  - pose proof F as F'. apply find_sub_some in F' as (Hi & Hs & Hc).
+    apply info_entry_in in Hi as (d' & Hd' & He & Hn). rewrite Hs, Hc in *.
+    destruct (s_agg e) eqn:A.
+    + exists e, d'. split; [reflexivity|]. split; [exact A|]. split; [exact Hd'|]. split; [exact He|].
+      rewrite He in A. exact A.
+    + rewrite (Hn eq_refl d Hd) in Ha. discriminate.
+  - exfalso. apply find_sub_none_iff in F. apply F. apply info_keys. exists d. exact Hd.
+Qed.
+
+Lemma recorded_flag_sound : forall t ok ds s c e,
+  find_sub s c (subscription_info t ok ds) = Some e ->
+  exists d, duty_for ok ds s c d /\ e = mk_sub t (sort_duties ds) d /\
+            (s_agg e = true <-> exists d', duty_for ok ds s c d' /\ agg_of t (sort_duties ds) d' = true).
+Proof.
+  intros t ok ds s c e F. pose proof F as F'. apply find_sub_some in F' as (Hi & Hs & Hc).
+  apply info_entry_in in Hi as (d & Hd & He & Hn). rewrite Hs, Hc in *.
+  exists d. split; [exact Hd|]. split; [exact He|]. split.
+  - intro A. exists d. split; [exact Hd|]. rewrite He in A. exact A.
+  - intros (d' & Hd' & A'). destruct (s_agg e) eqn:A; [reflexivity|].
+    rewrite (Hn eq_refl d' Hd') in A'. discriminate.
+Qed.
+
+(* =========================================================================================== *)
+(* Part 5.  Order: MergeDuties' sort, which validator is recorded, and independence of the     *)
+(* future subscriptions from the duties that are not in the future.                            *)
+
+Definition dle (a b : duty) : Prop := duty_leb a b = true.
+
+Lemma duty_leb_iff : forall a b, duty_leb a b = true <->
+  d_slot a < d_slot b \/ (d_slot a = d_slot b /\ (d_comm a < d_comm b \/ (d_comm a = d_comm b /\ d_val a <= d_val b))).
+Proof.
+  intros a b. unfold duty_leb.
+  destruct (N.ltb_spec (d_slot a) (d_slot b)); [split; [intros _; lia|reflexivity]|].
+  destruct (N.ltb_spec (d_slot b) (d_slot a)); [split; [discriminate|lia]|].
+  destruct (N.ltb_spec (d_comm a) (d_comm b)); [split; [intros _; lia|reflexivity]|].
+  destruct (N.ltb_spec (d_comm b) (d_comm a)); [split; [discriminate|lia]|].
+  rewrite N.leb_le. lia.
+Qed.
+
+Lemma duty_leb_total : forall x y, duty_leb x y = false -> duty_leb y x = true.
+Proof.
+  intros x y H. apply duty_leb_iff.
+  assert (N : ~ (duty_leb x y = true)) by congruence. rewrite duty_leb_iff in N. lia.
+Qed.
+
+Lemma duty_leb_trans : forall x y z, dle x y -> dle y z -> dle x z.
+Proof. intros x y z. unfold dle. rewrite !duty_leb_iff. lia. Qed.
+
+Lemma dle_refl : forall x, dle x x.
+Proof. intro x. unfold dle. apply duty_leb_iff. lia. Qed.
+
+Lemma dle_same_key_val : forall a b, dle a b -> dkey a = dkey b -> d_val a <= d_val b.
+Proof.
+  intros a b H K. unfold dkey in K. injection K as K1 K2. unfold dle, duty_leb in H.
+  rewrite K1, K2, !N.ltb_irrefl in H. apply N.leb_le. exact H.
+Qed.
+
+Lemma insert_sorted : forall x l, StronglySorted dle l -> StronglySorted dle (insert_duty x l).
+Proof.
+  intros x l S. induction S as [|y l S IH F]; cbn [insert_duty].
+  - constructor; constructor.
+  - destruct (duty_leb x y) eqn:E.
+    + constructor; [constructor; assumption|]. constructor; [exact E|].
+      rewrite Forall_forall in *. intros z Hz. eapply duty_leb_trans; [exact E|]. apply F. exact Hz.
+    + constructor; [exact IH|]. rewrite Forall_forall in *. intros z Hz.
+      apply in_insert_duty in Hz as [->|Hz]; [apply duty_leb_total; exact E|apply F; exact Hz].
+Qed.
+
+Lemma sort_sorted : forall l, StronglySorted dle (sort_duties l).
+Proof.
+  intro l. unfold sort_duties. induction l as [|x l IH]; cbn [fold_right]; [constructor|].
+  apply insert_sorted. exact IH.
+Qed.
+
+Lemma filter_sorted : forall (f : duty -> bool) l, StronglySorted dle l -> StronglySorted dle (filter f l).
+Proof.
+  intros f l S. induction S as [|y l S IH F]; cbn [filter]; [constructor|].
+  destruct (f y); [|exact IH]. constructor; [exact IH|].
+  rewrite Forall_forall in *. intros z Hz. apply filter_In in Hz as [Hz _]. apply F. exact Hz.
+Qed.
+
+Lemma find_first_sorted : forall (p : duty -> bool) M d,
+  StronglySorted dle M -> find p M = Some d -> forall d', In d' M -> p d' = true -> dle d d'.
+Proof.
+  intros p M d S. induction S as [|y l S IH F]; cbn [find]; intros H d' Hi Hp; [discriminate|].
+  destruct (p y) eqn:E.
+  - injection H as <-. destruct Hi as [<-|Hi].
+    + apply dle_refl.
+    + rewrite Forall_forall in F. apply F. exact Hi.
+  - destruct Hi as [<-|Hi]; [congruence|]. apply IH; assumption.
+Qed.
+
+Lemma last_opt_sorted : forall M d,
+  StronglySorted dle M -> last_opt M = Some d -> forall d', In d' M -> dle d' d.
+Proof.
+  intros M d S. induction S as [|y l S IH F]; intros H d' Hi; [discriminate|].
+  rewrite last_opt_cons in H. destruct (last_opt l) as [z|] eqn:E.
+  - injection H as <-. destruct Hi as [<-|Hi].
+    + rewrite Forall_forall in F. apply F. apply last_opt_in. exact E.
+    + apply IH; [reflexivity|exact Hi].
+  - injection H as <-. apply last_opt_none in E. subst l. destruct Hi as [<-|[]].
+    apply dle_refl.
+Qed.
+
+Lemma members_sorted : forall ok ds s c, StronglySorted dle (members ok (sort_duties ds) s c).
+Proof. intros. unfold members. apply filter_sorted, filter_sorted, sort_sorted. Qed.
+
+(* which validator: the selected one with the lowest index, else the highest index *)
+Lemma recorded_which : forall t ok ds s c e,
+  find_sub s c (subscription_info t ok ds) = Some e ->
+  (s_agg e = true ->
+     forall d', duty_for ok ds s c d' -> agg_of t (sort_duties ds) d' = true -> s_val e <= d_val d') /\
+  (s_agg e = false -> forall d', duty_for ok ds s c d' -> d_val d' <= s_val e).
+Proof.
+  intros t ok ds s c e F. rewrite info_entry in F. unfold choose in F.
+  pose proof (members_sorted ok ds s c) as S.
+  assert (K : forall x, In x (members ok (sort_duties ds) s c) -> dkey x = (s, c)).
+  { intros x Hx. apply in_members in Hx as (_ & <- & <- & _). reflexivity. }
+  assert (IM : forall d', duty_for ok ds s c d' -> In d' (members ok (sort_duties ds) s c)).
+  { intros d' (H1 & H2 & H3 & H4). apply in_members. rewrite in_sort_duties. repeat split; assumption. }
+  destruct (find (agg_of t (sort_duties ds)) (members ok (sort_duties ds) s c)) as [d|] eqn:Fd.
+  - injection F as <-. split.
+    + intros _ d' Hd' Ha. apply dle_same_key_val.
+      * eapply find_first_sorted; [exact S|exact Fd|apply IM; exact Hd'|exact Ha].
+      * rewrite (K d), (K d'); [reflexivity|apply IM; exact Hd'|]. apply find_some in Fd. apply Fd.
+    + intro A. apply find_some in Fd as [_ Fd]. rewrite s_agg_mk_sub in A. congruence.
+  - destruct (last_opt (members ok (sort_duties ds) s c)) as [d|] eqn:El; [|discriminate].
+    injection F as <-. split.
+    + intro A. rewrite s_agg_mk_sub in A. pose proof (find_none _ _ Fd d (last_opt_in _ _ El)). congruence.
+    + intros _ d' Hd'. apply dle_same_key_val.
+      * eapply last_opt_sorted; [exact S|exact El|apply IM; exact Hd'].
+      * rewrite (K d), (K d'); [reflexivity|apply IM; exact Hd'|]. apply last_opt_in. exact El.
+Qed.
+
+(* --- sorting commutes with filtering --- *)
+Lemma insert_head : forall x l, Forall (dle x) l -> insert_duty x l = x :: l.
+Proof.
+  intros x l F. destruct l as [|y l]; [reflexivity|]. cbn [insert_duty].
+  inversion F as [|? ? H _]; subst. unfold dle in H. rewrite H. reflexivity.
+Qed.
+
+Lemma filter_insert : forall (f : duty -> bool) x l, StronglySorted dle l ->
+  filter f (insert_duty x l) = if f x then insert_duty x (filter f l) else filter f l.
+Proof.
+  intros f x l S. induction S as [|y l S IH F]; cbn [insert_duty filter].
+  - destruct (f x); reflexivity.
+  - destruct (duty_leb x y) eqn:E; cbn [filter].
+    + destruct (f x) eqn:Fx; [|reflexivity].
+      destruct (f y) eqn:Fy.
+      * cbn [insert_duty]. rewrite E. reflexivity.
+      * rewrite insert_head; [reflexivity|].
+        rewrite Forall_forall in *. intros z Hz. apply filter_In in Hz as [Hz _].
+        eapply duty_leb_trans; [exact E|]. apply F. exact Hz.
+    + rewrite IH. destruct (f y) eqn:Fy; destruct (f x) eqn:Fx; try reflexivity.
+      cbn [insert_duty]. rewrite E. reflexivity.
+Qed.
+
+Lemma sort_filter : forall (f : duty -> bool) l, sort_duties (filter f l) = filter f (sort_duties l).
+Proof.
+  intros f l. unfold sort_duties. induction l as [|x l IH]; cbn [filter fold_right]; [reflexivity|].
+  rewrite filter_insert by apply sort_sorted. destruct (f x); cbn [fold_right]; rewrite IH; reflexivity.
+Qed.
+
+(* --- restriction of the info to the slots satisfying [g] --- *)
+Section Restrict.
+  Variable g : N -> bool.
+  Let q (e : sub) : bool := g (s_slot e).
+  Let q' (d : duty) : bool := g (d_slot d).
+
+  Lemma filter_put : forall e info,
+    filter q (put e info) = if q e then put e (filter q info) else filter q info.
+  Proof.
+    intros e info. induction info as [|x info IH]; cbn [put filter].
+    - destruct (q e); reflexivity.
+    - destruct (sub_key_eqb (s_slot e) (s_comm e) x) eqn:K.
+      + assert (Hq : q x = q e).
+        { apply sub_key_eqb_iff in K. unfold skey in K. injection K as K1 K2. unfold q. rewrite K1. reflexivity. }
+        cbn [filter]. rewrite Hq. destruct (q e); [|reflexivity]. cbn [put]. rewrite K. reflexivity.
+      + cbn [filter]. rewrite IH. destruct (q x), (q e); try reflexivity. cbn [put]. rewrite K. reflexivity.
+  Qed.
+
+  Lemma find_sub_filter : forall s c info, g s = true -> find_sub s c (filter q info) = find_sub s c info.
+  Proof.
+    intros s c info G. unfold find_sub. induction info as [|x info IH]; cbn [filter find]; [reflexivity|].
+    destruct (sub_key_eqb s c x) eqn:K.
+    - assert (Hq : q x = true).
+      { apply sub_key_eqb_iff in K. unfold skey in K. injection K as K1 K2. unfold q. rewrite K1. exact G. }
+      rewrite Hq. cbn [find]. rewrite K. reflexivity.
+    - destruct (q x); [cbn [find]; rewrite K|]; exact IH.
+  Qed.
+
+  Lemma filter_add_member : forall t L info d,
+    filter q (add_member t L info d) = if q' d then add_member t L (filter q info) d else filter q info.
+  Proof.
+    intros t L info d. unfold add_member. destruct (q' d) eqn:G.
+    - rewrite find_sub_filter by exact G.
+      assert (Hq : q (mk_sub t L d) = true) by exact G.
+      destruct (find_sub (d_slot d) (d_comm d) info) as [e|];
+        [destruct (s_agg e); [reflexivity|]|]; rewrite filter_put, Hq; reflexivity.
+    - assert (Hq : q (mk_sub t L d) = false) by exact G.
+      destruct (find_sub (d_slot d) (d_comm d) info) as [e|];
+        [destruct (s_agg e); [reflexivity|]|]; rewrite filter_put, Hq; reflexivity.
+  Qed.
+
+  Lemma filter_fold_add_member : forall t L M info,
+    filter q (fold_left (add_member t L) M info) = fold_left (add_member t L) (filter q' M) (filter q info).
+  Proof.
+    intros t L M. induction M as [|d M IH]; intro info; cbn [fold_left filter]; [reflexivity|].
+    rewrite IH, filter_add_member. destruct (q' d); reflexivity.
+  Qed.
+
+  Lemma last_by_restrict : forall (p : duty -> bool) L,
+    (forall d, p d = true -> q' d = true) -> last_by p (filter q' L) = last_by p L.
+  Proof.
+    intros p L H. rewrite !last_by_filter. f_equal.
+    induction L as [|d L IH]; cbn [filter]; [reflexivity|].
+    destruct (q' d) eqn:G; cbn [filter].
+    - rewrite IH. reflexivity.
+    - destruct (p d) eqn:P; [|exact IH]. apply H in P. congruence.
+  Qed.
+
+  Lemma mk_sub_restrict : forall t L d, q' d = true -> mk_sub t (filter q' L) d = mk_sub t L d.
+  Proof.
+    intros t L d G. unfold mk_sub, agg_of, len_of, cas_of.
+    rewrite !last_by_restrict; [reflexivity| |].
+    - intros x Hx. apply same_slot_iff in Hx. unfold q'. rewrite Hx. exact G.
+    - intros x Hx. apply same_key_iff in Hx. unfold dkey in Hx. injection Hx as H1 H2. unfold q'. rewrite H1. exact G.
+  Qed.
+
+  Lemma add_member_restrict : forall t L info d, q' d = true ->
+    add_member t (filter q' L) info d = add_member t L info d.
+  Proof. intros. unfold add_member. rewrite mk_sub_restrict by assumption. reflexivity. Qed.
+
+  Lemma fold_left_ext_in : forall {A B} (f1 f2 : A -> B -> A) l a,
+    (forall a x, In x l -> f1 a x = f2 a x) -> fold_left f1 l a = fold_left f2 l a.
+  Proof.
+    intros A B f1 f2 l. induction l as [|x l IH]; intros a H; cbn [fold_left]; [reflexivity|].
+    rewrite H by (left; reflexivity). apply IH. intros. apply H. right. assumption.
+  Qed.
+
+  Lemma filter_comm : forall {A} (f1 f2 : A -> bool) l, filter f1 (filter f2 l) = filter f2 (filter f1 l).
+  Proof.
+    intros A f1 f2 l. induction l as [|x l IH]; cbn [filter]; [reflexivity|].
+    destruct (f1 x) eqn:E1, (f2 x) eqn:E2; cbn [filter]; rewrite ?E1, ?E2, IH; reflexivity.
+  Qed.
+
+  (* the entries of the slots satisfying [g] are those computed from the duties of these slots alone *)
+  Lemma info_restrict : forall t ok ds,
+    filter q (subscription_info t ok ds) = subscription_info t ok (filter q' ds).
+  Proof.
+    intros t ok ds. unfold subscription_info. rewrite filter_fold_add_member. cbn [filter].
+    rewrite sort_filter. rewrite filter_comm.
+    apply fold_left_ext_in. intros a x Hx. symmetry. apply add_member_restrict.
+    apply filter_In in Hx as [Hx _]. apply filter_In in Hx as [_ Hx]. exact Hx.
+  Qed.
+End Restrict.
+
+Lemma submitted_independent_of_past : forall t ok ds cur,
+  to_submit cur (subscription_info t ok ds) =
+  map to_subscription (subscription_info t ok (filter (fun d => cur <? d_slot d) ds)).
+Proof.
+  intros t ok ds cur. unfold to_submit.
+  rewrite (info_restrict (fun s => cur <? s)). reflexivity.
+Qed.
+
+Lemma filter_idem : forall {A} (f : A -> bool) l, filter f (filter f l) = filter f l.
+Proof.
+  intros A f l. induction l as [|x l IH]; cbn [filter]; [reflexivity|].
+  destruct (f x) eqn:E; cbn [filter]; rewrite ?E, IH; reflexivity.
+Qed.
+
+Lemma submitted_independent_of_past' : forall t ok ds cur,
+  to_submit cur (subscription_info t ok ds) =
+  to_submit cur (subscription_info t ok (filter (fun d => cur <? d_slot d) ds)).
+Proof.
+  intros t ok ds cur. rewrite (submitted_independent_of_past t ok (filter _ ds)), filter_idem.
+  apply submitted_independent_of_past.
+Qed.
